@@ -7,6 +7,7 @@ package grid
 // answers 404/500, or hides Content-Length.
 
 import (
+	"bufio"
 	"bytes"
 	"context"
 	"encoding/binary"
@@ -17,6 +18,7 @@ import (
 	"net/url"
 	"os"
 	"runtime"
+	"strconv"
 	"strings"
 	"sync"
 	"testing"
@@ -30,6 +32,9 @@ import (
 	"github.com/buchgr/bazel-remote/v2/cache/disk"
 	"github.com/buchgr/bazel-remote/v2/cache/grpcproxy"
 	"github.com/buchgr/bazel-remote/v2/cache/httpproxy"
+	"github.com/buchgr/bazel-remote/v2/cache/s3proxy"
+	"github.com/minio/minio-go/v7"
+	"github.com/minio/minio-go/v7/pkg/credentials"
 	pb "github.com/buchgr/bazel-remote/v2/genproto/build/bazel/remote/execution/v2"
 	"github.com/buchgr/bazel-remote/v2/verifdrv/vlib"
 )
@@ -85,6 +90,11 @@ func (fl *faultLayer) ServeHTTP(w http.ResponseWriter, r *http.Request) {
 	rec := httptest.NewRecorder()
 	fl.inner.ServeHTTP(rec, r)
 	body := rec.Body.Bytes()
+	for k, v := range rec.Header() {
+		if k != "Content-Length" {
+			w.Header()[k] = v
+		}
+	}
 	if rec.Code != 200 {
 		w.WriteHeader(rec.Code)
 		_, _ = w.Write(body)
@@ -125,10 +135,56 @@ func (fl *faultLayer) ServeHTTP(w http.ResponseWriter, r *http.Request) {
 	_, _ = w.Write(body)
 }
 
-// dumbStore is a plain HTTP object store (what http_proxy expects).
+// dumbStore is a plain HTTP object store (what http_proxy expects). With s3
+// set it answers the way an S3 endpoint does for the three calls the s3proxy
+// backend makes through the real minio client (PutObject, GetObject,
+// StatObject; path-style addressing): aws-chunked request bodies are decoded,
+// objects carry Last-Modified and ETag, an absent key is a NoSuchKey document.
 type dumbStore struct {
 	mu  sync.Mutex
 	obj map[string][]byte
+	s3  bool
+}
+
+// awsChunked decodes the "aws-chunked" content encoding (signed or unsigned
+// chunks, optional trailers) minio uses for uploads over plain HTTP.
+func awsChunked(b []byte) ([]byte, bool) {
+	br := bufio.NewReader(bytes.NewReader(b))
+	var out []byte
+	for {
+		line, err := br.ReadString('\n')
+		if err != nil {
+			return nil, false
+		}
+		line = strings.TrimRight(line, "\r\n")
+		if i := strings.IndexByte(line, ';'); i >= 0 {
+			line = line[:i]
+		}
+		n, err := strconv.ParseInt(line, 16, 64)
+		if err != nil || n < 0 {
+			return nil, false
+		}
+		if n == 0 {
+			return out, true
+		}
+		buf := make([]byte, n+2)
+		if _, err := readFull(br, buf); err != nil {
+			return nil, false
+		}
+		out = append(out, buf[:n]...)
+	}
+}
+
+func readFull(r *bufio.Reader, buf []byte) (int, error) {
+	k := 0
+	for k < len(buf) {
+		n, err := r.Read(buf[k:])
+		k += n
+		if err != nil {
+			return k, err
+		}
+	}
+	return k, nil
 }
 
 func (d *dumbStore) ServeHTTP(w http.ResponseWriter, r *http.Request) {
@@ -137,13 +193,41 @@ func (d *dumbStore) ServeHTTP(w http.ResponseWriter, r *http.Request) {
 	switch r.Method {
 	case http.MethodPut:
 		b := readAllClose(r.Body)
+		if d.s3 && (strings.HasPrefix(r.Header.Get("X-Amz-Content-Sha256"), "STREAMING-") || strings.Contains(r.Header.Get("Content-Encoding"), "aws-chunked")) {
+			dec, ok := awsChunked(b)
+			if !ok {
+				w.WriteHeader(400)
+				return
+			}
+			if want := r.Header.Get("X-Amz-Decoded-Content-Length"); want != "" && want != fmt.Sprint(len(dec)) {
+				w.WriteHeader(400)
+				return
+			}
+			b = dec
+		}
 		d.obj[r.URL.Path] = b
+		if d.s3 {
+			w.Header().Set("ETag", `"`+vlib.Sha(b)[:32]+`"`)
+		}
 		w.WriteHeader(200)
 	case http.MethodGet, http.MethodHead:
 		b, ok := d.obj[r.URL.Path]
 		if !ok {
+			if d.s3 {
+				w.Header().Set("Content-Type", "application/xml")
+				w.WriteHeader(404)
+				if r.Method == http.MethodGet {
+					_, _ = w.Write([]byte(`<?xml version="1.0" encoding="UTF-8"?><Error><Code>NoSuchKey</Code><Message>The specified key does not exist.</Message><Key>` + r.URL.Path + `</Key></Error>`))
+				}
+				return
+			}
 			http.NotFound(w, r)
 			return
+		}
+		if d.s3 {
+			w.Header().Set("Last-Modified", "Mon, 02 Jan 2006 15:04:05 GMT")
+			w.Header().Set("ETag", `"`+vlib.Sha(b)[:32]+`"`)
+			w.Header().Set("Content-Type", "application/octet-stream")
 		}
 		w.Header().Set("Content-Length", fmt.Sprint(len(b)))
 		w.WriteHeader(200)
@@ -160,6 +244,18 @@ func (d *dumbStore) has(path string) bool {
 	defer d.mu.Unlock()
 	_, ok := d.obj[path]
 	return ok
+}
+
+// pathOf returns the path under which an object whose name ends in suffix is stored.
+func (d *dumbStore) pathOf(suffix string) string {
+	d.mu.Lock()
+	defer d.mu.Unlock()
+	for p := range d.obj {
+		if strings.HasSuffix(p, suffix) {
+			return p
+		}
+	}
+	return ""
 }
 
 func repoGoroutines() int {
@@ -212,12 +308,31 @@ func TestC12Chain(t *testing.T) {
 
 	back := newFx(fxOpts{mode: mode, validateAC: false, asset: true})
 	defer back.close()
-	store := &dumbStore{obj: map[string][]byte{}}
+	store := &dumbStore{obj: map[string][]byte{}, s3: via == "s3"}
 	fl := &faultLayer{inner: store}
 	bsrv := httptest.NewServer(fl)
-	defer bsrv.Close()
+	defer func() {
+		// a client that leaked a response body keeps its handler blocked in Write: cut such
+		// connections first, Close would wait for them for ever
+		bsrv.CloseClientConnections()
+		bsrv.Close()
+	}()
+	mkS3 := func(uploaders int) cache.Proxy {
+		// the real s3proxy backend and the real minio client, path-style addressing, signed requests
+		return s3proxy.New(strings.TrimPrefix(bsrv.URL, "http://"), "bkt", minio.BucketLookupPath, "pfx",
+			credentials.NewStaticV4("AKIDEXAMPLE", "secret", ""), true, false, "us-east-1", 4, mode, sl, sl, uploaders, 64)
+	}
+	storedPath := func(o chainObj) string {
+		if via == "s3" {
+			return store.pathOf("/" + o.hash)
+		}
+		return requestPath(mode, o)
+	}
 
 	mkProxy := func() cache.Proxy {
+		if via == "s3" {
+			return mkS3(2)
+		}
 		if via == "http" {
 			u, _ := url.Parse(bsrv.URL)
 			p, err := httpproxy.New(u, mode, &http.Client{Timeout: 30 * time.Second}, sl, sl, 2, 64)
@@ -257,6 +372,9 @@ func TestC12Chain(t *testing.T) {
 			continue
 		}
 		okb := waitFor(func() bool {
+			if via == "s3" {
+				return store.pathOf("/"+o.hash) != ""
+			}
 			if via == "http" {
 				return store.has(requestPath(mode, o))
 			}
@@ -340,7 +458,9 @@ func TestC12Chain(t *testing.T) {
 	// won't upload blobs"): accepted local uploads must still release their files ----
 	{
 		var ro cache.Proxy
-		if via == "http" {
+		if via == "s3" {
+			ro = mkS3(0)
+		} else if via == "http" {
 			u, _ := url.Parse(bsrv.URL)
 			ro, _ = httpproxy.New(u, mode, &http.Client{Timeout: 30 * time.Second}, sl, sl, 0, 64)
 		} else {
@@ -398,7 +518,7 @@ func TestC12Chain(t *testing.T) {
 	c.close()
 
 	// ---- HTTP fault layer: every byte offset ----
-	if via == "http" {
+	if via == "http" || via == "s3" {
 		small := objs[0]
 		ac := objs[2]
 		baseG, baseF := 0, 0
@@ -411,11 +531,15 @@ func TestC12Chain(t *testing.T) {
 				p = "/" + o.kind.String() + "/" + o.hash
 			}
 			_ = p
-			req := httptest.NewRequest("GET", requestPath(mode, o), nil)
+			if storedPath(o) == "" {
+				rep.BrokenHarness("backend does not hold %s", o.name)
+				continue
+			}
+			req := httptest.NewRequest("GET", storedPath(o), nil)
 			store.ServeHTTP(rec, req)
 			n := rec.Body.Len()
 			if rec.Code != 200 || n == 0 {
-				rep.BrokenHarness("backend does not serve %s at %s: %d", o.name, requestPath(mode, o), rec.Code)
+				rep.BrokenHarness("backend does not serve %s at %s: %d", o.name, storedPath(o), rec.Code)
 				continue
 			}
 			type ft struct {
@@ -427,6 +551,14 @@ func TestC12Chain(t *testing.T) {
 			}
 			i64 := func(v int64) *int64 { return &v }
 			faults := []ft{{name: "status-404", cut: -1, code: 404}, {name: "status-500", cut: -1, code: 500}, {name: "no-content-length", cut: -1, noLen: true}}
+			if via == "s3" {
+				// the minio client re-asks after a 5xx (up to 10 times, with back-off): 403 is the
+				// quick tier's "error answer"; the 500 cell (slow, because of those retries) is thorough only
+				faults = []ft{{name: "status-404", cut: -1, code: 404}, {name: "status-403", cut: -1, code: 403}, {name: "no-content-length", cut: -1, noLen: true}}
+				if vlib.Thorough() {
+					faults = append(faults, ft{name: "status-500", cut: -1, code: 500})
+				}
+			}
 			for k := 0; k < n; k++ {
 				faults = append(faults, ft{name: fmt.Sprintf("cut-at-%d", k), cut: k})
 			}
@@ -448,8 +580,8 @@ func TestC12Chain(t *testing.T) {
 						if known {
 							size = int64(len(o.data))
 						}
-						id := fmt.Sprintf("via=http mode=%s %s size_known=%v fault=%s", mode, o.name, known, f.name)
-						cls := fmt.Sprintf("C12 chain http mode=%s kind=%s fault=%s", mode, o.kind, strings.Split(f.name, "-at-")[0])
+						id := fmt.Sprintf("via=%s mode=%s %s size_known=%v fault=%s", via, mode, o.name, known, f.name)
+						cls := fmt.Sprintf("C12 chain %s mode=%s kind=%s fault=%s", via, mode, o.kind, strings.Split(f.name, "-at-")[0])
 						if f.hdrSize != nil {
 							fl.setHeader(*f.hdrSize, f.pad)
 						} else {
@@ -504,11 +636,11 @@ func TestC12Chain(t *testing.T) {
 				return repoGoroutines() <= g1+2 && openFDs() <= f1+2
 			})
 			if !okLeak {
-				rep.Violate("C12 chain http leak after backend faults", fmt.Sprintf("via=http mode=%s %s: after one round of %d faulty fetches: %d goroutines with repository/persistConn frames and %d fds; after a second identical round: %d and %d", mode, o.name, 2*len(faults), g1, f1, repoGoroutines(), openFDs()), nil)
+				rep.Violate("C12 chain "+via+" leak after backend faults", fmt.Sprintf("via="+via+" mode=%s %s: after one round of %d faulty fetches: %d goroutines with repository/persistConn frames and %d fds; after a second identical round: %d and %d", mode, o.name, 2*len(faults), g1, f1, repoGoroutines(), openFDs()), nil)
 			}
 			front.settle()
 			for _, p := range front.invariants() {
-				rep.Violate("C12 chain frontend inconsistent "+genericKey(p), fmt.Sprintf("via=http mode=%s %s: %s", mode, o.name, p), nil)
+				rep.Violate("C12 chain frontend inconsistent "+genericKey(p), fmt.Sprintf("via=%s mode=%s %s: %s", via, mode, o.name, p), nil)
 			}
 			// leaks: goroutines with repository frames / connections and fds return to the baseline
 			front.close()
